@@ -45,7 +45,8 @@ def make_db(R, p, md, ty):
             kinds = ["exact"] * n
         for kind in kinds:
             generic = R.random() < (0.5 if kind == "exact" else 0.3)
-            cls = R.choice(["!", "!", "unix", "win", "other"]) if kind != "exact" or R.random() < 0.2 else R.choice(["unix", "win", "other"])
+            # the application class is EXACTLY "!"; an empty class, "!!", " !" ... are ordinary classes
+            cls = R.choice(["!", "!", "unix", "win", "other", "", "!!", "!x", "x!"]) if kind != "exact" or R.random() < 0.2 else R.choice(["unix", "win", "other", ""])
             label = "%s:%s:N%d:f" % ("g" if generic else "s", cls, len(lines))
             s = G.matching_sig(R, p, md)
             s["bad_ttl"] = False if kind != "exact" or R.random() < 0.8 else s["bad_ttl"]
@@ -130,8 +131,29 @@ def single_record_cases(R, count, stream="api"):
         spec["mf"], spec["frag"] = False, 0
         syn_mss = R.choice([0, 0, 1460, 536]) if ty == 0x12 else 0
         p["syn_mss"] = syn_mss
-        p["win"] = spec["win"] = G.aim_window(R, p)
-        sg = G.matching_sig(R, p, md)
+        if W.full(spec)["v"] == 4 and not spec.get("ipopts") and R.random() < 0.12:
+            spec["ipopts"] = "01" * R.choice([4, 8, 12])                 # IPv4 options: the header is longer, "MSS + header length" moves with it
+            p["olen"] = len(spec["ipopts"]) // 2
+            p["hdr"] += p["olen"]
+        pa = p
+        if ty == 2 and R.random() < 0.25:
+            # the caller passes a peer MSS although the packet is a plain SYN: it is ignored (the window is a multiple of that value only)
+            syn_mss = R.choice([1300, 1336, 536, 1412])
+            pa = dict(p, syn_mss=syn_mss)
+        p["win"] = spec["win"] = G.aim_window(R, pa)
+        forced = pa is not p or bool(p.get("olen"))
+        if p.get("olen") and p["mss"] >= 100:
+            k = R.choice([1, 2, 3])
+            if (p["mss"] + p["hdr"]) * k <= 65535:
+                p["win"] = spec["win"] = (p["mss"] + p["hdr"]) * k
+        elif pa is not p:
+            k = R.choice([1, 2, 3, 5])
+            p["win"] = spec["win"] = pa["syn_mss"] * k
+        sg = G.matching_sig(R, dict(pa, win=p["win"]), md)
+        if forced:
+            wm = G.model_win_multi(dict(pa, win=p["win"]))
+            if wm and 1 <= wm[0] <= 1000:
+                sg["wtype"], sg["wsize"] = 3 + wm[1], wm[0]          # the mss*N / mtu*N form that the (aimed-at) divisor would give
         for _ in range(R.choice([0, 0, 1, 1, 2])):
             sg = G.edit_sig(R, sg, p, md)
         G.legal_quirks(sg)
